@@ -12,7 +12,7 @@
    The induction over the execution phase is the one of Proofs/LazyMeta.v (the proof scripts are the same), with the
    store primitives `store_add` / forcing treated by hand because an arbitrary store update does not preserve `Jst`. *)
 From TSG Require Import Model.Lazy Proofs.BaseFacts Proofs.Containers Proofs.MonadFacts Proofs.StrictMeta
-  Proofs.SLGraph Proofs.SLForce Proofs.SLFailGraph.
+  Proofs.SLGraph Proofs.SLForce Proofs.Extends Proofs.SLFailGraph.
 
 Lemma firstn_app_len {A} (l r : list A) : firstn (length l) (l ++ r) = l.
 Proof. rewrite firstn_app, firstn_all, Nat.sub_diag, firstn_O, app_nil_r. reflexivity. Qed.
@@ -410,4 +410,142 @@ Section Store.
     Qed.
 
   End Jok.
+
+  (* ================= lazy values and deferred statements whose evaluation cannot succeed ================= *)
+  Lemma Jst_none rhoK st : sbk rhoK st -> Jst rhoK None st. Proof. intros H. split; [exact H|exact I]. Qed.
+
+  (* a computation that preserves `sbk` when it succeeds: reading `jok` with no doomed thunk *)
+  Lemma jok_nres {A} rhoK (m : M lstate A) s p : jok rhoK None m -> sbk rhoK (l_store s) -> nob p ->
+    nres (m s p) (fun _ s' p' => nob p' /\ sbk rhoK (l_store s')).
+  Proof.
+    intros Hm Hs Hb. destruct (m s p) as [[[a s'] p']|e|x|] eqn:E; cbn [nres]; auto.
+    destruct (Hm _ _ _ _ _ Hb (Jst_none _ _ Hs) E) as [Hb' [Hs' _]]. auto.
+  Qed.
+  Lemma den_nres F rhoK lv v ls pl (Phi : value -> lstate -> polls -> Prop) : den rhoK lv v -> sbk rhoK (l_store ls) -> nob pl ->
+    (forall st' pl', nob pl' -> sbk rhoK st' -> Phi v (set_store st' ls) pl') -> nres (eval_lv' F lv ls pl) Phi.
+  Proof.
+    intros Hd Hs Hb H. apply nres_of_lres. eapply lres_mono; [apply (force_den F rhoK None lv v ls pl Hd (Jst_none _ _ Hs) Hb)|].
+    intros v' ls' pl' (-> & Hb' & st' & -> & [Hs' _]). apply H; assumption.
+  Qed.
+
+  Lemma nok_bind {A B} (m : M lstate A) (f : A -> M lstate B) s p : nok (m s p) -> nok (bind m f s p).
+  Proof. intros H. apply nres_bind. apply nok_nres. exact H. Qed.
+
+  Lemma mapM_bad F rhoK pre vs x post : Forall2 (den rhoK) pre vs -> bad_lv rhoK x ->
+    forall ls pl, sbk rhoK (l_store ls) -> nob pl -> nok (mapM (eval_lv' F) (pre ++ x :: post) ls pl).
+  Proof.
+    intros HF Hx. induction HF as [|e v pre vs Hd _ IH]; intros ls pl Hs Hb; cbn [app mapM].
+    - apply nok_bind. apply Hx; assumption.
+    - apply nres_bind. apply (den_nres F rhoK e v ls pl _ Hd Hs Hb). intros st' pl' Hb' Hs'. apply nok_bind. apply IH; assumption.
+  Qed.
+  Lemma bad_list rhoK pre vs x post : Forall2 (den rhoK) pre vs -> bad_lv rhoK x -> bad_lv rhoK (LList (pre ++ x :: post)).
+  Proof.
+    intros HF Hx F ls pl Hs Hb. destruct F as [|F]; [exact I|]. cbn [eval_lv]. apply nres_bind. unfold lpoll. apply nres_poll; [exact Hb|]. intros pl0 Hb0.
+    apply nok_bind. apply (mapM_bad F rhoK pre vs x post HF Hx); assumption.
+  Qed.
+  Lemma bad_set rhoK pre vs x post : Forall2 (den rhoK) pre vs -> bad_lv rhoK x -> bad_lv rhoK (LSet (pre ++ x :: post)).
+  Proof.
+    intros HF Hx F ls pl Hs Hb. destruct F as [|F]; [exact I|]. cbn [eval_lv]. apply nres_bind. unfold lpoll. apply nres_poll; [exact Hb|]. intros pl0 Hb0.
+    apply nok_bind. apply (mapM_bad F rhoK pre vs x post HF Hx); assumption.
+  Qed.
+  Lemma bad_call_arg rhoK f pre vs x post : Forall2 (den rhoK) pre vs -> bad_lv rhoK x -> bad_lv rhoK (LCall f (pre ++ x :: post)).
+  Proof.
+    intros HF Hx F ls pl Hs Hb. destruct F as [|F]; [exact I|]. cbn [eval_lv]. apply nres_bind. unfold lpoll. apply nres_poll; [exact Hb|]. intros pl0 Hb0.
+    apply nok_bind. clear Hb pl. revert ls pl0 Hs Hb0. induction HF as [|e v pre vs Hd _ IH]; intros ls pl Hs Hb; cbn [app iterM].
+    - apply nok_bind. apply nok_bind. apply Hx; assumption.
+    - apply nres_bind. apply nres_bind. apply (den_nres F rhoK e v ls pl _ Hd Hs Hb). intros st' pl' Hb' Hs'.
+      unfold lpush_param at 1. apply nres_get. unfold set_lparams, Lazy.upd. apply nres_modify. apply IH; assumption.
+  Qed.
+  (* a call that fails (or panics, or runs out of fuel) on every graph *)
+  Lemma bad_call_fail rhoK f args vs : Forall2 (den rhoK) args vs ->
+    (forall g, match call f g vs with Ok _ => False | _ => True end) -> bad_lv rhoK (LCall f args).
+  Proof.
+    intros HF Hc F ls pl Hs Hb. destruct F as [|F]; [exact I|]. cbn [eval_lv]. apply nres_bind. unfold lpoll. apply nres_poll; [exact Hb|]. intros pl0 Hb0.
+    destruct Hs as (pad & Hst). destruct (force_all call t fl F) as [He _].
+    assert (HF' : Forall2 (den (firstn (length rhoK) (rhoK ++ pad))) args vs) by (rewrite firstn_app_len; exact HF).
+    apply nres_bind. apply nres_of_lres. eapply lres_mono; [apply (force_push_args call _ _ _ (He _ _) args vs ls pl0 HF' Hst Hb0)|].
+    intros _ ls1 pl1 (Hb1 & st1 & -> & Hst1 & _). apply nres_bind. unfold ldrain_params. apply nres_get. cbn [set_params_l set_store l_params].
+    rewrite app_length, <- (Forall2_len _ _ _ HF).
+    destruct (Nat.ltb_spec (length (l_params ls) + length args) (length args)) as [Hlt|_]; [exfalso; lia|].
+    replace (length (l_params ls) + length args - length args)%nat with (length (l_params ls)) by lia.
+    rewrite firstn_app, firstn_all, Nat.sub_diag, firstn_O, app_nil_r, skipn_app, skipn_all, Nat.sub_diag, skipn_O. cbn [app].
+    apply nres_bind. unfold set_lparams, Lazy.upd. apply nres_modify. apply nres_ret.
+    unfold lcall_function. apply nres_get. cbn [l_graph set_params_l set_store]. specialize (Hc (l_graph ls)).
+    destruct (call f (l_graph ls) vs) as [[v g']|e|x|]; [contradiction|exact I|exact I|exact I].
+  Qed.
+
+  (* the endpoint of an edge / the node of an attribute statement does not evaluate to a graph node *)
+  Definition bad_end (rhoK : list value) (lv : lvalue) : Prop :=
+    forall F ls pl, sbk rhoK (l_store ls) -> nob pl -> nok (eval_as_gnode t fl call F lv ls pl).
+  Lemma bad_end_lv rhoK lv : bad_lv rhoK lv -> bad_end rhoK lv.
+  Proof. intros H F ls pl Hs Hb. unfold eval_as_gnode. apply nok_bind. apply H; assumption. Qed.
+  Lemma bad_end_type rhoK lv v : den rhoK lv v -> (forall n, v <> VGraph n) -> bad_end rhoK lv.
+  Proof.
+    intros Hd Hv F ls pl Hs Hb. unfold eval_as_gnode. apply nres_bind. apply (den_nres F rhoK lv v ls pl _ Hd Hs Hb). intros st' pl' _ _.
+    apply nres_lift. intros n Hn. destruct v; cbn in Hn; try discriminate. eapply Hv; reflexivity.
+  Qed.
+
+  Notation eval_lstmt' := (eval_lstmt t fl call).
+  Definition bad_stmt (rhoK : list value) (st : lstmt) : Prop :=
+    forall F ls pl, sbk rhoK (l_store ls) -> nob pl -> nok (eval_lstmt' F st ls pl).
+  (* ... cannot succeed on a graph that extends G (an attribute that conflicts with a value present in G) *)
+  Definition bad_stmt_g (rhoK : list value) (G : graph) (st : lstmt) : Prop :=
+    forall F ls pl, sbk rhoK (l_store ls) -> graph_ext G (l_graph ls) -> nob pl -> nok (eval_lstmt' F st ls pl).
+
+  Definition sinv (rhoK : list value) (s : lstate) (p : polls) : Prop := nob p /\ sbk rhoK (l_store s).
+  Lemma jok_sinv {A} rhoK (m : M lstate A) s p : jok rhoK None m -> sinv rhoK s p -> nres (m s p) (fun _ s' p' => sinv rhoK s' p').
+  Proof. intros Hm [Hb Hs]. apply jok_nres; assumption. Qed.
+
+  Lemma bad_stmt_node_end rhoK n attrs dbg : bad_end rhoK n -> bad_stmt rhoK (LSAttrNode n attrs dbg).
+  Proof.
+    intros Hn F ls pl Hs Hb. unfold eval_lstmt. apply nres_bind. unfold lpoll. apply nres_poll; [exact Hb|]. intros pl0 Hb0.
+    apply nres_ctx. apply nok_bind. apply nres_ctx. apply Hn; assumption.
+  Qed.
+  Lemma bad_stmt_node_attr rhoK n attrs dbg k lv : In (k, lv) attrs -> bad_lv rhoK lv -> bad_stmt rhoK (LSAttrNode n attrs dbg).
+  Proof.
+    intros Hin Hlv F ls pl Hs Hb. unfold eval_lstmt. apply nres_bind. unfold lpoll. apply nres_poll; [exact Hb|]. intros pl0 Hb0.
+    apply nres_ctx. apply nres_bind. apply nres_ctx. eapply nres_mono; [apply (jok_nres rhoK _ ls pl0 (jk_eval_as_gnode rhoK None F n) Hs Hb0)|].
+    intros x ls1 pl1 [Hb1 Hs1]. apply (nok_iter (sinv rhoK) _ attrs (k, lv) Hin); [| |split; assumption].
+    - intros a s p HI. apply jok_sinv; [|exact HI]. apply jk_bind; [apply jk_eval_lv|intros v]. apply jk_bind; [apply jk_prev_insert|intros prev]. apply jk_lattr_node_add.
+    - intros s p [Hb2 Hs2]. cbn [fst snd]. apply nok_bind. apply Hlv; assumption.
+  Qed.
+  Lemma bad_stmt_edge_src rhoK a b ea dbg : bad_end rhoK a -> bad_stmt rhoK (LSEdge a b ea dbg).
+  Proof.
+    intros Hn F ls pl Hs Hb. unfold eval_lstmt. apply nres_bind. unfold lpoll. apply nres_poll; [exact Hb|]. intros pl0 Hb0.
+    apply nres_ctx. apply nok_bind. apply nres_ctx. apply Hn; assumption.
+  Qed.
+  Lemma bad_stmt_edge_snk rhoK a b ea dbg : bad_end rhoK b -> bad_stmt rhoK (LSEdge a b ea dbg).
+  Proof.
+    intros Hn F ls pl Hs Hb. unfold eval_lstmt. apply nres_bind. unfold lpoll. apply nres_poll; [exact Hb|]. intros pl0 Hb0.
+    apply nres_ctx. apply nres_bind. apply nres_ctx. eapply nres_mono; [apply (jok_nres rhoK _ ls pl0 (jk_eval_as_gnode rhoK None F a) Hs Hb0)|].
+    intros x ls1 pl1 [Hb1 Hs1]. apply nok_bind. apply nres_ctx. apply Hn; assumption.
+  Qed.
+  Lemma bad_stmt_aedge_src rhoK a b attrs dbg : bad_end rhoK a -> bad_stmt rhoK (LSAttrEdge a b attrs dbg).
+  Proof.
+    intros Hn F ls pl Hs Hb. unfold eval_lstmt. apply nres_bind. unfold lpoll. apply nres_poll; [exact Hb|]. intros pl0 Hb0.
+    apply nres_ctx. apply nok_bind. apply nres_ctx. apply Hn; assumption.
+  Qed.
+  Lemma bad_stmt_aedge_snk rhoK a b attrs dbg : bad_end rhoK b -> bad_stmt rhoK (LSAttrEdge a b attrs dbg).
+  Proof.
+    intros Hn F ls pl Hs Hb. unfold eval_lstmt. apply nres_bind. unfold lpoll. apply nres_poll; [exact Hb|]. intros pl0 Hb0.
+    apply nres_ctx. apply nres_bind. apply nres_ctx. eapply nres_mono; [apply (jok_nres rhoK _ ls pl0 (jk_eval_as_gnode rhoK None F a) Hs Hb0)|].
+    intros x ls1 pl1 [Hb1 Hs1]. apply nok_bind. apply nres_ctx. apply Hn; assumption.
+  Qed.
+  Lemma bad_stmt_aedge_attr rhoK a b attrs dbg k lv : In (k, lv) attrs -> bad_lv rhoK lv -> bad_stmt rhoK (LSAttrEdge a b attrs dbg).
+  Proof.
+    intros Hin Hlv F ls pl Hs Hb. unfold eval_lstmt. apply nres_bind. unfold lpoll. apply nres_poll; [exact Hb|]. intros pl0 Hb0.
+    apply nres_ctx. apply nres_bind. apply nres_ctx. eapply nres_mono; [apply (jok_nres rhoK _ ls pl0 (jk_eval_as_gnode rhoK None F a) Hs Hb0)|].
+    intros x ls1 pl1 [Hb1 Hs1]. apply nres_bind. apply nres_ctx. eapply nres_mono; [apply (jok_nres rhoK _ ls1 pl1 (jk_eval_as_gnode rhoK None F b) Hs1 Hb1)|].
+    intros y ls2 pl2 [Hb2 Hs2]. apply (nok_iter (sinv rhoK) _ attrs (k, lv) Hin); [| |split; assumption].
+    - intros ak s p HI. apply jok_sinv; [|exact HI]. apply jk_bind; [apply jk_eval_lv|intros v]. apply jk_bind; [apply jk_ledge_exists|intros ex].
+      destruct ex; [|apply jk_fail; exact I]. apply jk_bind; [apply jk_prev_insert|intros prev]. apply jk_lattr_edge_add.
+    - intros s p [Hb3 Hs3]. cbn [fst snd]. apply nok_bind. apply Hlv; assumption.
+  Qed.
+  Lemma bad_stmt_print rhoK args dbg lv : In (Some lv) args -> bad_lv rhoK lv -> bad_stmt rhoK (LSPrint args dbg).
+  Proof.
+    intros Hin Hlv F ls pl Hs Hb. unfold eval_lstmt. apply nres_bind. unfold lpoll. apply nres_poll; [exact Hb|]. intros pl0 Hb0.
+    apply nres_ctx. apply (nok_iter (sinv rhoK) _ args (Some lv) Hin); [| |split; assumption].
+    - intros a s p HI. apply jok_sinv; [|exact HI]. destruct a as [lv0|]; [|apply jk_ret]. apply jk_bind; [apply jk_eval_lv|intros v; apply jk_ret].
+    - intros s p [Hb3 Hs3]. apply nok_bind. apply Hlv; assumption.
+  Qed.
 End Store.
